@@ -37,8 +37,8 @@ Proof. repeat split; try (vm_compute; reflexivity); try (vm_compute; lia); try (
 (* plugin Al with command a; plugin Ga with a sub-callback `al` holding a command a *)
 Definition Al := Plug [65; 108] [[97]] [] false.
 Definition Ga := Plug [71; 97] [[103]] [Group [97; 108] [[97]]] false.
-Definition E_shadow := Env [Al; Ga] [] [] [].
-Definition E_plain := Env [Al; Plug [71; 97] [[103]; [97]] [] false] [] [] [].
+Definition E_shadow := Env [Al; Ga] dis_empty [] [].
+Definition E_plain := Env [Al; Plug [71; 97] [[103]; [97]] [] false] dis_empty [] [].
 
 Lemma qualified_refuted :
   In Al (e_cbs E_shadow) /\ canon (p_name Al) = [97; 108] /\
@@ -53,8 +53,8 @@ Example qualified_ok :
 Proof. vm_compute. split; [reflexivity|eexists; reflexivity]. Qed.
 
 (* `disable a` (everywhere): a is no longer selected, even qualified *)
-Definition E_dis := Env [Al] (dis_add [] [65] None) [] [].
+Definition E_dis := Env [Al] (dis_add dis_empty [65] None) [] [].
 Example disabled_example :
-  dict_get (canon [97]) (e_dis E_dis) = Some None /\
+  memG (canon [97]) (d_all (e_dis E_dis)) = true /\
   findCallbacksForArgs E_dis [[97]] = ([], []) /\ findCallbacksForArgs E_dis [[97; 108]; [97]] = ([], []).
 Proof. repeat split; try (vm_compute; reflexivity); try (vm_compute; lia); try (vm_compute; auto). Qed.
